@@ -88,6 +88,20 @@ func c12Mutate(stream []byte, payload []byte, mut string, k int) ([]byte, bool) 
 			return s, false
 		}
 		return s[:at], true
+	case "signed-size", "blank-before-size", "signed-zero-terminator":
+		// a size field that is not just hexadecimal digits (a number parser may be more generous)
+		switch mut {
+		case "signed-size":
+			return append([]byte("+"), s...), true
+		case "blank-before-size":
+			return append([]byte(" "), s...), true
+		default:
+			i := bytes.LastIndex(s, []byte("0;chunk-signature="))
+			if i < 0 {
+				return s, false
+			}
+			return append(append(append([]byte(nil), s[:i]...), '-'), s[i:]...), true
+		}
 	case "chunk-longer-than-data":
 		// announce a first chunk that is longer than everything that follows
 		rest := s[bytes.IndexByte(s, ';'):]
@@ -105,7 +119,7 @@ func c12Mutate(stream []byte, payload []byte, mut string, k int) ([]byte, bool) 
 	return s, false
 }
 
-var c12Muts = []string{"cut-after-data", "cut-after-data-crlf", "truncate", "bad-hex", "no-signature", "short-signature", "missing-crlf-after-header", "missing-crlf-after-data", "chunk-longer-than-data", "trailing-garbage", "no-final-chunk", "flip"}
+var c12Muts = []string{"signed-size", "blank-before-size", "signed-zero-terminator", "cut-after-data", "cut-after-data-crlf", "truncate", "bad-hex", "no-signature", "short-signature", "missing-crlf-after-header", "missing-crlf-after-data", "chunk-longer-than-data", "trailing-garbage", "no-final-chunk", "flip"}
 
 func c12Check(cs c12Case) (ds []disc) {
 	st := backends.Must(cs.Backend, backends.Options{StreamBuf: cs.StreamBuf})
